@@ -29,7 +29,7 @@ ASSUMPTIONS = [
     'one-shot iterators are only given to trees without a Composite (a Composite hands the same, by then exhausted, iterator to its later children); instances of subclasses of int/str (IntEnum/StrEnum members) are only used with IsEnum',
 ]
 TRUSTED = [
-    'stdlib oracles: uuid.UUID, Enum.__call__, int(), float(), str(), re (for non-default patterns), datetime.fromisoformat, timedelta(seconds=…) are called by the harness and their answers handed to the model; the model proves what the validators do with those answers',
+    'stdlib oracles: uuid.UUID, Enum.__call__, int(), float(), str(), re (for non-default patterns), datetime.fromisoformat, timedelta(seconds=…) are called by the harness and their answers handed to the model as function tables (the driver answers `oracle-missing` for an argument the harness did not ask for, which the judge reports as an inconsistency); the model is the generated translation of the validate bodies with these callees as opaque parameters, and the theorems say what the validators do with ANY such functions',
     'non-ASCII whitespace / lower-case / decimal-digit tables are computed by the harness with str.isspace / re \\s / str.lower / unicodedata.decimal for the characters of each case; the ASCII part is computed inside the Lean model',
 ]
 
@@ -1020,7 +1020,7 @@ def judge(case, impl, model):
         ok = (m['out'] == 'ok' and m['value'] == s['value']) if sk == 'accept' else (m['out'] == 'raises' and m['exc'] == 'ValidatorException')
         if not ok:
             corr, why = False, f'model {m} does not meet its own spec {s} outside every recorded region'
-    if m.get('exc') in ('unknown-leaf', 'float-oracle-missing'):
+    if m.get('exc') in ('unknown-leaf', 'float-oracle-missing', 'oracle-missing'):
         corr, why = False, 'harness/driver inconsistency: ' + m['exc']
     finding = reg if (pfail and reg and same_out) else None
     tag = f"{k}/{sk}/{impl['out'] if impl['out'] == 'ok' else impl['exc']}"
